@@ -1646,9 +1646,10 @@ func (te *TemplateEngine) cloneTableRowProperties(source *TableRowProperties) *T
 // cloneTableCell 深度复制表格单元格
 func (te *TemplateEngine) cloneTableCell(source *TableCell) TableCell {
 	newCell := TableCell{
-		Properties: te.cloneTableCellProperties(source.Properties),
-		Paragraphs: make([]Paragraph, len(source.Paragraphs)),
-		Tables:     make([]Table, len(source.Tables)), // 复制嵌套表格
+		Properties:   te.cloneTableCellProperties(source.Properties),
+		Paragraphs:   make([]Paragraph, len(source.Paragraphs)),
+		Tables:       make([]Table, len(source.Tables)), // 复制嵌套表格
+		ContentOrder: source.ContentOrder,
 	}
 
 	for i, para := range source.Paragraphs {
